@@ -6,6 +6,7 @@ package consensus
 import (
 	"context"
 	"fmt"
+	"sort"
 	"strings"
 	"testing"
 	"time"
@@ -29,6 +30,25 @@ type c13Sender struct {
 	// from inside RequestBlock, when the store has released its lock; the fetch still answers
 	chain       *blockchain.Blockchain
 	storeDuring map[hotstuff.Hash]bool
+	// what happens in the replica while a hash is being fetched (the reply still arrives):
+	// 1 TimeoutEvent, 2 ViewChangeEvent, 3 Store(the block being fetched), 4 Store(injectOther[h])
+	el          *eventloop.EventLoop
+	inject      map[hotstuff.Hash]int
+	injectOther map[hotstuff.Hash]*hotstuff.Block
+	refused     int // requests made with an already cancelled context
+}
+
+var c13InjectNames = []string{"nothing", "TimeoutEvent", "ViewChangeEvent", "Store(the block being fetched)", "Store(another block)"}
+
+func (s *c13Sender) injected() string {
+	var parts []string
+	for h, k := range s.inject {
+		if k != 0 && s.tbl[h] != nil {
+			parts = append(parts, fmt.Sprintf("; while the block of view %d is fetched: %s", uint64(s.tbl[h].View()), c13InjectNames[k]))
+		}
+	}
+	sort.Strings(parts)
+	return strings.Join(parts, "")
 }
 
 func (s *c13Sender) NewView(hotstuff.ID, hotstuff.SyncInfo) error { return nil }
@@ -36,9 +56,27 @@ func (s *c13Sender) Vote(hotstuff.ID, hotstuff.PartialCert) error { return nil }
 func (s *c13Sender) Timeout(hotstuff.TimeoutMsg)                  {}
 func (s *c13Sender) Propose(*hotstuff.ProposeMsg)                 {}
 func (s *c13Sender) Sub([]hotstuff.ID) (core.Sender, error)       { return s, nil }
-func (s *c13Sender) RequestBlock(_ context.Context, h hotstuff.Hash) (*hotstuff.Block, bool) {
+func (s *c13Sender) RequestBlock(ctx context.Context, h hotstuff.Hash) (*hotstuff.Block, bool) {
+	if ctx.Err() != nil {
+		// like GorumsSender: a request made with a cancelled context fails without an answer
+		s.refused++
+		return nil, false
+	}
 	b, ok := s.tbl[h]
 	if ok {
+		switch s.inject[h] {
+		case 1:
+			s.el.AddEvent(hotstuff.TimeoutEvent{View: 1})
+		case 2:
+			s.el.AddEvent(hotstuff.ViewChangeEvent{View: 2})
+		case 3:
+			s.chain.Store(b)
+		case 4:
+			if o := s.injectOther[h]; o != nil {
+				s.chain.Store(o)
+				s.given = append(s.given, o)
+			}
+		}
 		if s.storeDuring[h] && s.chain != nil {
 			s.chain.Store(b)
 		}
@@ -247,6 +285,7 @@ func c13NewRun(v *verifOut, logger logging.Logger, cfg *core.RuntimeConfig, base
 	r.el = eventloop.New(logger, 4096)
 	r.chain = blockchain.New(r.el, logger, r.snd)
 	r.snd.chain = r.chain
+	r.snd.el = r.el
 	auth := cert.NewAuthority(cfg, r.chain, base)
 	vs, err := protocol.NewViewStates(r.chain, auth)
 	if err != nil {
@@ -306,6 +345,8 @@ func (r *c13Run) Commit(via, target *hotstuff.Block, fetchable []*hotstuff.Block
 		ts = append(ts, fmt.Sprintf("(%d, [%s])", r.id(x.Hash()), r.gB(x)))
 	}
 	phBefore, cbBefore := r.chain.PruneHeight(), r.vs.CommittedBlock()
+	refused0 := r.snd.refused
+	inj := r.snd.injected()
 	r.evCommit, r.evAbort = nil, nil
 	g0 := len(r.snd.given)
 	var cerr error
@@ -354,8 +395,13 @@ func (r *c13Run) Commit(via, target *hotstuff.Block, fetchable []*hotstuff.Block
 	if via != nil {
 		how = "TryCommit(" + r.nm(via) + ") -> commit"
 	}
-	r.desc = append(r.desc, fmt.Sprintf("%s %s (peers have %s) -> err=%v executed %s aborted %s, pruneHeight %d->%d", how, r.nm(target), r.nms(fetchable),
+	if n := r.snd.refused - refused0; n > 0 {
+		inj += fmt.Sprintf(" [%d fetch(es) were made with an already cancelled context and got no answer]", n)
+		r.v.CountN("fetches_made_with_cancelled_context", n)
+	}
+	r.desc = append(r.desc, fmt.Sprintf("%s %s (peers have %s%s) -> err=%v executed %s aborted %s, pruneHeight %d->%d", how, r.nm(target), r.nms(fetchable), inj,
 		cerr != nil, r.nms(r.evCommit), r.nms(r.evAbort), uint64(phBefore), uint64(r.chain.PruneHeight())))
+	r.snd.inject, r.snd.injectOther = nil, nil
 	r.commits++
 	if cerr != nil || panicked {
 		r.nErr++
@@ -657,6 +703,51 @@ func c13InFlightCommit(r *c13Run, variant int, forkFirst bool) {
 	r.Commit(f3, f3, nil)
 }
 
+// c13InterleavedCommit: one commit walk has to fetch k ancestors; while fetch number j is served an
+// event reaches the event loop or a block is stored; every reply still arrives, so the commit must
+// succeed and execute the whole chain.
+func c13InterleavedCommit(r *c13Run, k, j, kind, j2 int) {
+	g := hotstuff.GetGenesis()
+	chain := []*hotstuff.Block{g}
+	for i := 1; i <= k+2; i++ {
+		chain = append(chain, c13Block(chain[i-1].Hash(), uint64(i), i))
+	}
+	side := c13Block(chain[1].Hash(), 2, 50)
+	r.know(chain[1:]...)
+	r.know(side)
+	r.Store(side)
+	var missing []*hotstuff.Block // in the order the walk asks for them
+	for i := k; i >= 1; i-- {
+		missing = append(missing, chain[i])
+	}
+	set := func(j, kind int) {
+		h := missing[j].Hash()
+		switch kind {
+		case 1, 2, 3:
+			r.snd.inject[h] = kind
+		case 4: // the block the walk fetches next
+			if j+1 < len(missing) {
+				r.snd.inject[h], r.snd.injectOther[h] = 4, missing[j+1]
+			}
+		case 5: // a block that is already stored
+			r.snd.inject[h], r.snd.injectOther[h] = 4, side
+		}
+	}
+	r.snd.inject, r.snd.injectOther = map[hotstuff.Hash]int{}, map[hotstuff.Hash]*hotstuff.Block{}
+	set(j, kind)
+	if j2 > j {
+		set(j2, 1+(kind+j2)%3)
+	}
+	tip := chain[k+1]
+	r.Commit(tip, tip, missing)
+	if r.executedAt[tip.Hash()] == 0 {
+		r.fail("committer:commit-gave-up-although-fetchable", fmt.Sprintf("commit of %s: every missing ancestor was answered by the peers, yet the block was not executed", r.nm(tip)))
+	} else {
+		r.oks++
+	}
+	r.Commit(chain[k+2], chain[k+2], nil)
+}
+
 func TestVerifC13(t *testing.T) {
 	v := verifNew("C13")
 	logging.SetLogLevel("error")
@@ -719,6 +810,24 @@ func TestVerifC13(t *testing.T) {
 			if r := c13NewRun(v, logger, cfg, base, "commit-inflight", fmt.Sprintf("variant=%d forkFirst=%d", variant, ff)); r != nil {
 				c13InFlightCommit(r, variant, ff == 1)
 				r.finish(s)
+			}
+		}
+	}
+
+	// events and stores landing between two fetches of one commit walk
+	for k := 2; k <= v.Pick(4, 5); k++ {
+		for j := 0; j < k; j++ {
+			for kind := 0; kind <= 5; kind++ {
+				for j2 := -1; j2 < k; j2++ {
+					if j2 >= 0 && (j2 <= j || kind == 0 || (kind+j+j2)%2 == 0) {
+						continue
+					}
+					key := fmt.Sprintf("k=%d at=%d kind=%d then=%d", k, j+1, kind, j2+1)
+					if r := c13NewRun(v, logger, cfg, base, "commit-interleave", key); r != nil {
+						c13InterleavedCommit(r, k, j, kind, j2)
+						r.finish(s)
+					}
+				}
 			}
 		}
 	}
